@@ -222,9 +222,21 @@ func (f *Fixer) applyLinterFixes(
 			break
 		}
 
+		// Locations reported by the linter are only valid for the content that was linted. Once a file
+		// has been fixed in this iteration, fixes are applied only for violations of the same rule found
+		// on rows not yet changed, as a location-based fix changes nothing but the row of its location.
+		// The remaining violations are reported anew, with valid locations, in the next iteration.
+		fixedInIteration := make(map[string]*fixedFile)
+
 		//nolint:gocritic
 		for _, violation := range rep.Violations {
 			file := violation.Location.File
+
+			if ff, ok := fixedInIteration[file]; ok {
+				if ff.rule != violation.Title || slices.Contains(ff.rows, violation.Location.Row) {
+					continue
+				}
+			}
 
 			fixInstance, ok := f.GetFixForName(violation.Title)
 			if !ok {
@@ -286,6 +298,12 @@ func (f *Fixer) applyLinterFixes(
 
 			fixReport.AddFileFix(file, fixResult)
 
+			if _, ok := fixedInIteration[file]; !ok {
+				fixedInIteration[file] = &fixedFile{rule: violation.Title}
+			}
+
+			fixedInIteration[file].rows = append(fixedInIteration[file].rows, violation.Location.Row)
+
 			fixMadeInIteration = true
 		}
 
@@ -295,6 +313,12 @@ func (f *Fixer) applyLinterFixes(
 	}
 
 	return nil
+}
+
+// fixedFile keeps track of the rule and the rows fixed in a file during one iteration of linting and fixing.
+type fixedFile struct {
+	rule string
+	rows []int
 }
 
 // handleRename processes the rename operation and resolves conflicts if necessary.
